@@ -267,7 +267,9 @@ def plan_for(ctx):
         plan.append((wk, "TERM", ["app_running", "resp_partial"], "late", "tcp", (), 6, 2))
         plan.append((wk, "TERM", ["app_running", "idle"], "within", "tcp", (), 3, 60, ("--reuse-port",)))
         plan.append((wk, "INT", ["app_running"], "never", "tcp", (), 3, 60, ("--reuse-port",)))
-        if wk != "sync":
+        if wk in ("gevent", "eventlet"):
+            # (the threaded worker with all its connection slots taken does not poll its connections at all - the recorded
+            # finding of C13 - so the requests of this scenario would never start)
             plan.append((wk, "TERM", ["app_running", "app_running", "idle"], "within", "tcp", (), 3, 60, ("--worker-connections", "2")))
         plan.append((wk, "QUIT", ["idle"], "within", "tcp", (), 3, 60, ("--reload",)))
         plan.append((wk, "TERM", ["app_running"], "within", "tcp", (), 3, 60, ("--reload",)))
